@@ -12,6 +12,7 @@ func init() {
 	replayers["(*commitment).recalculate"] = replayRecalculate
 	replayers["(*Raft).verifyLeader"] = replayVerifyLeader
 	replayers["(*Raft).appendEntries"] = replayAppendEntries
+	replayers["(*Raft).installSnapshot"] = replayInstallSnapshot
 }
 
 func mInt(m map[string]string, k string, def int64) int64 {
@@ -294,6 +295,66 @@ func TestGovcReplay(t *testing.T) {
 	var l Log
 	if li > 0 && inner.GetLog(li, &l) != nil {
 		t.Fatalf("tail_consistent violated: the cached last log %d/%d names an entry the store no longer holds (store tail %d)", li, lt, storeLast)
+	}
+}
+`
+	return "TestGovcReplay", test, true
+}
+
+// installSnapshot: a follower whose log reaches past the installed snapshot.
+func replayInstallSnapshot(m map[string]string, o *Oblig) (string, string, bool) {
+	if !strings.Contains(o.Name, "handshake") {
+		return "", "", false
+	}
+	test := `package raft
+
+import (
+	"bytes"
+	"testing"
+)
+
+func TestGovcReplay(t *testing.T) {
+	store := NewInmemStore()
+	conf := DefaultConfig()
+	conf.LocalID = "me"
+	conf.skipStartup = true
+	_, trans := NewInmemTransport("me")
+	r, err := NewRaft(conf, &MockFSM{}, store, store, NewInmemSnapshotStore(), trans)
+	if err != nil {
+		t.Fatal(err)
+	}
+	go r.runFSM()
+	defer close(r.shutdownCh)
+	// follower log 1..20 in term 2 (a stale uncommitted suffix)
+	var logs []*Log
+	for i := uint64(1); i <= 20; i++ {
+		logs = append(logs, &Log{Index: i, Term: 2, Type: LogNoop})
+	}
+	if err := store.StoreLogs(logs); err != nil {
+		t.Fatal(err)
+	}
+	r.setLastLog(20, 2)
+	r.setCurrentTerm(3)
+	// the leader of term 3 installs its snapshot at 10/3
+	buf, _ := encodeMsgPack([]*Log{})
+	data := buf.Bytes()
+	cfg := Configuration{Servers: []Server{{Suffrage: Voter, ID: "ldr", Address: "ldr"}, {Suffrage: Voter, ID: "me", Address: "me"}}}
+	req := &InstallSnapshotRequest{RPCHeader: RPCHeader{ProtocolVersion: ProtocolVersionMax, ID: []byte("ldr"), Addr: []byte("ldr")}, SnapshotVersion: SnapshotVersionMax,
+		Term: 3, LastLogIndex: 10, LastLogTerm: 3, Configuration: EncodeConfiguration(cfg), ConfigurationIndex: 1, Size: int64(len(data))}
+	respCh := make(chan RPCResponse, 1)
+	r.installSnapshot(RPC{Command: req, Reader: bytes.NewReader(data), RespChan: respCh}, req)
+	out := <-respCh
+	if out.Error != nil || !out.Response.(*InstallSnapshotResponse).Success {
+		t.Skipf("install did not succeed: %v", out.Error)
+	}
+	li, lt := r.getLastEntry()
+	t.Logf("installed snapshot 10/3; last entry advertised %d/%d", li, lt)
+	// the leader's next request: previous entry = the snapshot it has just installed
+	ae := &AppendEntriesRequest{RPCHeader: req.RPCHeader, Term: 3, PrevLogEntry: 10, PrevLogTerm: 3, Entries: []*Log{{Index: 11, Term: 3, Type: LogNoop}}}
+	respCh2 := make(chan RPCResponse, 1)
+	r.appendEntries(RPC{Command: ae, RespChan: respCh2}, ae)
+	if !(<-respCh2).Response.(*AppendEntriesResponse).Success {
+		t.Fatalf("handshake violated: InstallSnapshot(10/3) succeeded, yet AppendEntries with previous entry 10/3 is rejected (last entry still %d/%d)", li, lt)
 	}
 }
 `
